@@ -17,8 +17,8 @@ from vlib.node import Node
 META = {
     'level_text': 'Theorems for all histories of client reads/writes and driver-side calls/assignments: struct_members_agree (struct[m] = '
                   'member m after every operation, both layouts, any oracle outcome of the driver bodies incl. failures in the middle of '
-                  'a struct access), floatenum_consistent (value = valuedict[index] after every operation; a write hands the driver an '
-                  'index whose value no other label is closer to; first-minimum tie rule), limits_enforced (an accepted write is inside '
+                  'a struct access), floatenum_consistent_partial (value = valuedict[index] after every operation; a write hands the driver an '
+                  'index whose value no other label is closer to) + closest_first_minimum (tie rule of min()), limits_enforced (an accepted write is inside '
                   'every limit parameter current at that moment; an inverted limits pair is refused and changes nothing), '
                   'single_controller + takeover_switches_off + controlled_by_names_active.  Models tied to frappy/extparams.py, '
                   'params.Limit, modulebase.checkLimits and mixins.py by a correspondence run on real modules behind a real dispatcher; '
